@@ -104,12 +104,15 @@ def judge_shift(ctx, text, k, expected):
             want = suf
         if at_k != want:
             out.append(("shift", {"mode": mode, "k": k, "at_k": at_k, "suffix_shifted": want}))
-        # same suffix behind a different prefix of the same length
-        other = ctx["alt_prefix"](text[:k]) + text[k:]
-        if other != text:
-            o2 = M.run_parse(_pest, p, ctx["rule"], other, k)
-            if o2 != at_k:
-                out.append(("prefix-consulted", {"mode": mode, "k": k, "text2": other, "at_k": at_k, "with_other_prefix": o2}))
+        # same suffix behind different prefixes of the same length: other ASCII letters, characters whose case folding /
+        # normalisation changes length (a prefix must not even be looked at), line breaks
+        for other_prefix in (ctx["alt_prefix"](text[:k]), "\u00df\u0130\ufb01\u1e9e"[:k].ljust(k, "\u00df"), ("\n\r\u2028" * k)[:k]):
+            other = other_prefix + text[k:]
+            if other != text:
+                o2 = M.run_parse(_pest, p, ctx["rule"], other, k)
+                if o2 != at_k:
+                    out.append(("prefix-consulted", {"mode": mode, "k": k, "text2": other, "at_k": at_k, "with_other_prefix": o2}))
+                    break
     return out
 
 
